@@ -41,13 +41,30 @@ pub static POLLS: AtomicU64 = AtomicU64::new(0);
 pub static VCLOCK_DIV: AtomicU64 = AtomicU64::new(0);
 pub static VCLOCK_CALLS: AtomicU64 = AtomicU64::new(0);
 
-pub fn clock(start: Instant) -> Instant {
+/// What `limits_exceeded` reads its elapsed time from: the real start instant, or an exact virtual duration
+/// (exact, so that a preemption between two reads cannot move a virtual deadline)
+#[derive(Clone, Copy)]
+pub enum Start {
+    Real(Instant),
+    Virtual(std::time::Duration),
+}
+
+impl Start {
+    pub fn elapsed(&self) -> std::time::Duration {
+        match self {
+            Self::Real(i) => i.elapsed(),
+            Self::Virtual(d) => *d,
+        }
+    }
+}
+
+pub fn clock(start: Instant) -> Start {
     let div = VCLOCK_DIV.load(Ordering::Relaxed);
     if div == 0 {
-        return start;
+        return Start::Real(start);
     }
     let c = VCLOCK_CALLS.fetch_add(1, Ordering::Relaxed);
-    Instant::now() - std::time::Duration::from_millis(c / div)
+    Start::Virtual(std::time::Duration::from_millis(c / div))
 }
 
 /// the virtual time the most recent clock consultation saw
